@@ -7,7 +7,7 @@ from vlib.core import Sub, Failure
 from vlib import env
 
 pytrs = env.import_pytrs()
-from pytrs import PLSSDesc, MasterConfig, find_twprge  # noqa: E402
+from pytrs import PLSSDesc, MasterConfig, Config, find_twprge  # noqa: E402
 
 ID = "C08"
 RULE = (
@@ -84,7 +84,7 @@ def case(draw, ocr=False):
         trs.append(tr)
     return {
         "trs": trs, "sep": draw(st.sampled_from([", ", "\n", ";\n", "\n\n", "\r\n", ";\r\n", "\r\n\r\n"])), "tsep": draw(st.sampled_from([" ", "\n", ", ", "\r\n"])),
-        "channel": draw(st.sampled_from(["config", "config_long", "kw", "kw_over_config", "master", "master_late", "none", "plain_after_one_off_kw", "preprocess_one_kw"])),
+        "channel": draw(st.sampled_from(["config", "config_long", "kw", "kw_over_config", "master", "master_late", "none", "plain_after_one_off_kw", "preprocess_one_kw", "config_from_kwargs", "config_from_dict"])),
         "dns": draw(st.sampled_from("ns")), "dew": draw(st.sampled_from("ew")), "ocr": ocr,
         # an optional parse mode that is conservative on these texts (every Twp/Rge heads 'Sec N: block'): the reading of the Twp/Rges may not depend on it
         "mode": draw(st.sampled_from(MODES)),
@@ -169,6 +169,16 @@ def oracle(c):
                     fails.append(Failure("preprocess_one_keyword", f"{text!r} [config {dns},{dew}]: preprocess({kwp}) has {NATURAL.findall(pre)}, expected {nat}", text=text, want=nat))
                     break
             d.parse()
+        elif ch in ("config_from_kwargs", "config_from_dict"):
+            # a Config object built by the alternative constructors
+            settings = {"default_ns": dns, "default_ew": dew}
+            for x in ocr_cfg.split(","):
+                if x in ("TRS_desc",):
+                    settings["layout"] = x
+                elif x:
+                    settings[x] = True
+            cfg_obj = Config.from_kwargs(**settings) if ch == "config_from_kwargs" else Config.from_dict(settings)
+            d = PLSSDesc(text, config=cfg_obj)
         elif ch == "master":
             MasterConfig.default_ns, MasterConfig.default_ew = dns, dew
             d = PLSSDesc(text, config=ocr_cfg)
@@ -201,6 +211,21 @@ def oracle(c):
             got_o = find_twprge(text, preprocess=True, ocr_scrub=True, **kw)
             if got_o != nat:
                 fails.append(Failure("find_twprge_ocr_on_plain_digits", f"find_twprge({text!r}, preprocess=True, ocr_scrub=True, {kw}) = {got_o}, expected {nat}", **ctx))
+            # ... nor does the setting, through the configuration: same Twp/Rges, and the warning about filled-in directions is still given
+            if ch in ("config", "kw", "none"):
+                o = PLSSDesc(text, config=",".join(x for x in ((dns, dew) if ch != "none" else ()) + ("ocr_scrub", c.get("mode", "")) if x))
+                o_flag = any(isinstance(f, str) and f.startswith("fixed_twprge<") for f in o.w_flags)
+                o_tflag = all(any(str(f).startswith("fixed_twprge<") for f in t.w_flags) for t in o.tracts)
+                if [(t.trs, t.desc) for t in o.tracts] != tracts or o_flag != any_missing or (any_missing and not o_tflag):
+                    fails.append(Failure("ocr_scrub_on_plain_digits", f"{text!r} with ocr_scrub switched on as well: tracts {[(t.trs, t.desc) for t in o.tracts]} w_flags {o.w_flags} "
+                                         f"(a direction was missing={any_missing}), expected {tracts}", **ctx))
+            # Twp/Rges written one directly after the other (a list of townships): each one is found and completed on its own
+            for joiner in (", ", " ", "\n", ",\n"):
+                adj = joiner.join(tr_text(tr) for tr in c["trs"])
+                got_a = find_twprge(adj, preprocess=True, **kw)
+                if got_a != nat:
+                    fails.append(Failure("find_twprge_adjacent", f"find_twprge({adj!r}, preprocess=True, {kw}) = {got_a}, expected {nat}", **ctx))
+                    break
         if not any_missing and not c["ocr"]:
             got_raw = find_twprge(text)
             if got_raw != nat:
